@@ -2,7 +2,7 @@
 # tools/merge_branch.sh <id>: merge branch b-<id> of /tmp/vw/<id> into /verif, resolving known_findings.json / MANIFEST.json / evidence conflicts
 cd /verif
 id=$1
-git fetch -q /tmp/vw/$id b-$id || exit 1
+git checkout -- evidence 2>/dev/null; git fetch -q /tmp/vw/$id b-$id || exit 1
 git merge --no-edit FETCH_HEAD > /tmp/merge_$id.log 2>&1
 if [ $? -ne 0 ]; then
   for f in $(git diff --name-only --diff-filter=U); do
